@@ -66,6 +66,7 @@ static rc::Gen<std::string> password() {
     Gen<std::string> piece = gen::weightedOneOf<std::string>({
         {3, gen::container<std::string>(gen::inRange<char>(32, 127))},
         {2, gen::map(word_of("Spanish"), [](std::string w) { return model::nfc(w); })}, {2, word_of("French")}, {1, word_of("Korean")}, {1, gen::map(word_of("Japanese"), [](std::string w) { return model::nfc(w); })},
+        {1, gen::element<std::string>("e\xcc\x82\xcc\xa3", "e\xcc\xa3\xcc\x82", "Vi\xe1\xbb\x87t", "a\xcc\x81\xcc\xa7\xcc\x88", "o\xcc\x9b\xcc\x89", "q\xcc\x87\xcc\xa3")},   // several marks on one letter, in and out of canonical order
         {1, gen::element<std::string>("\xef\xac\x81", "\xef\xbc\xa1\xef\xbd\x82", "\xe2\x84\xab", "\xc7\x86", "\xe3\x8d\xbf", "\xe2\x91\xa0", "\xc2\xbd", "\xe3\x80\x80", "\xc2\xa0", "\xef\xb7\xba")},   // fi ligature, full-width Ab, Angstrom, dz-caron, square Kabushiki, circled 1, 1/2, ideographic space, NBSP, Arabic ligature (expands x18)
         {1, gen::map(gen::container<std::vector<uint32_t>>(gen::weightedOneOf<uint32_t>({{3, gen::inRange<uint32_t>(0xA0, 0x3000)}, {1, gen::inRange<uint32_t>(0x300, 0x370)}, {1, gen::inRange<uint32_t>(0xAC00, 0xD7A4)}, {1, gen::inRange<uint32_t>(0x10000, 0x1F000)}})), [](std::vector<uint32_t> v) { for (auto& c : v) if (c >= 0xD800 && c < 0xE000) c = 0x41; return model::utf8(v); })},
     });
